@@ -168,7 +168,9 @@ def run(chk):
                 return t, None
         return None, None
 
-    rows = {"Web": [], "Android": []}
+    # one group per origin kind the build has (the Android arm exists only with `android-asset-validation`)
+    oadt = [a for pth, a in p.adts.items() if pth.startswith("passkey_client::") and pth.endswith("::Origin")]
+    rows = {v["name"]: [] for v in oadt[0]["variants"]} if oadt else {"Web": []}
     for i, o in enumerate(accepting):
         arm = arm_of(o)
         rows.setdefault(arm, []).append(o)
@@ -333,8 +335,9 @@ def run(chk):
         chk.ob("R6 binding", "R6d|Client::%s|assert_domain-args" % nm, okr and oko, where(co, ab), "assert_domain(origin=%s, rp_id=%s)" % (flow.term_str(o_t), flow.term_str(r_t)))
     chk.floor("R1", 1)
     chk.floor("R2", 1)
-    chk.floor("R3", 3)
-    chk.floor("R4", 2)
-    chk.floor("R5", 3)
-    chk.floor("R6", 8)
+    # the default-features build has no Android origin: one group less in R3..R6
+    chk.floor("R3", 3, default=2)
+    chk.floor("R4", 2, default=1)
+    chk.floor("R5", 3, default=2)
+    chk.floor("R6", 8, default=7)
     chk.assumptions = ["url::Url::domain/scheme and idna behave as documented", "the PSL data itself is C10", "string semantics of the suffix test beyond separator evidence are not decided"]
